@@ -118,7 +118,9 @@ val cy_order_fields : opts -> field list -> name list option
 
 val hash_flag : field -> bool
 
-val cy_hash_names : field list -> name list
+val cy_hash_flag : bool -> field -> bool
+
+val cy_hash_names : bool -> field list -> name list
 
 type action =
 | ANothing
@@ -138,7 +140,7 @@ type hashres =
 
 val hash_of_action : action -> name list -> hashres
 
-val cy_hash : opts -> user -> field list -> hashres
+val cy_hash : bool -> opts -> user -> field list -> hashres
 
 val cy_match_args : opts -> user -> field list -> name list option
 
@@ -210,7 +212,7 @@ type decisions = { d_rejected : bool; d_sig : sigres;
                    d_match : name list option; d_body : (name * src) list;
                    d_post : name list option }
 
-val cy_decide : opts -> user -> field list -> decisions
+val cy_decide : bool -> opts -> user -> field list -> decisions
 
 val py_decide : opts -> user -> field list -> decisions
 
